@@ -69,13 +69,17 @@ def convert_chunks(source_url, dest_url, copy_info=False,
         dest_url, options
     )
     if copy_info:
-        chunk_writer = precomputed_io.get_IO_for_new_dataset(
+        precomputed_io.get_IO_for_new_dataset(
             source_info, dest_accessor, encoder_options=options
         )
-    else:
-        chunk_writer = precomputed_io.get_IO_for_existing_dataset(
-            dest_accessor, encoder_options=options
+        # The layout (sharded or not) is chosen from the info, which did not
+        # exist when dest_accessor was created
+        dest_accessor = neuroglancer_scripts.accessor.get_accessor_for_url(
+            dest_url, options
         )
+    chunk_writer = precomputed_io.get_IO_for_existing_dataset(
+        dest_accessor, encoder_options=options
+    )
     dest_info = chunk_writer.info
 
     chunk_transformer = data_types.get_chunk_dtype_transformer(
